@@ -490,3 +490,159 @@ Proof.
     rewrite nth_map_seq by exact Hj. cbn [Nat.add].
     replace (j + (length w - 1 - (length w - S i))) with (i + j) by lia. apply seteqb_refl.
 Qed.
+
+(* ================================================================= derivations *)
+Definition sym_ok (G : cfg) (s : sym) : Prop := if is_var s then In (sname s) (gV G) else In (sname s) (gSg G).
+
+Lemma split_all_spec (x : list sym) : forall pre p A post,
+  In (p, A, post) (split_all pre x) <-> exists u, x = u ++ Var A :: post /\ p = pre ++ u.
+Proof.
+  induction x as [|[b k] x IH]; intros pre p A post; cbn [split_all].
+  - split; [intros [] | intros (u & E & _); destruct u; discriminate].
+  - rewrite in_app_iff, IH. unfold is_var, sname. cbn [fst snd]. split.
+    + intros [Hi|(u & Ex & Ep)].
+      * destruct b; [|destruct Hi]. destruct Hi as [Hi|[]]. inversion Hi; subst.
+        exists []. split; [reflexivity | rewrite app_nil_r; reflexivity].
+      * exists ((b, k) :: u). split; [cbn [app]; rewrite Ex; reflexivity | rewrite Ep, <- app_assoc; reflexivity].
+    + intros (u & Ex & Ep). destruct u as [|s u]; cbn [app] in Ex.
+      * inversion Ex; subst. left. left. rewrite app_nil_r. reflexivity.
+      * inversion Ex; subst. right. exists u. split; [reflexivity | rewrite <- app_assoc; reflexivity].
+Qed.
+
+(* mode >= 2: some variable occurrence is rewritten by a rule *)
+Lemma cfg_has_derivation_any (G : cfg) (k : nat) (x y : list sym) : cfg_has_derivation G (S (S k)) x y = true <->
+  exists pre A post rhs, x = pre ++ Var A :: post /\ y = pre ++ rhs ++ post /\ has_rule G A rhs.
+Proof.
+  cbn [cfg_has_derivation]. rewrite existsb_exists. split.
+  - intros ([[pre A] post] & Hi & He). apply split_all_spec in Hi. destruct Hi as (u & Ex & Ep). cbn [app] in Ep. subst pre.
+    apply rule_existsb_spec in He. destruct He as (rhs & Hr & Ey). exists u, A, post, rhs. auto.
+  - intros (pre & A & post & rhs & Ex & Ey & Hr). exists (pre, A, post). split.
+    + apply split_all_spec. exists pre. auto.
+    + apply rule_existsb_spec. exists rhs. auto.
+Qed.
+
+Lemma cfg_has_derivation_spec (G : cfg) (mode : nat) (x y : list sym) : cfg_has_derivation G mode x y = true ->
+  exists pre A post rhs, x = pre ++ Var A :: post /\ y = pre ++ rhs ++ post /\ has_rule G A rhs /\
+    (mode = 0 -> all_terminals pre = true) /\ (mode = 1 -> all_terminals post = true).
+Proof.
+  destruct mode as [|[|k]]; intros Hs.
+  - cbn [cfg_has_derivation] in Hs. apply deriv_step_ok_leftmost in Hs.
+    destruct Hs as (pre & A & post & rhs & Ex & Ey & Hr & Hp). exists pre, A, post, rhs.
+    split; [exact Ex|]. split; [exact Ey|]. split; [exact Hr|]. split; [intros _; exact Hp | discriminate].
+  - cbn [cfg_has_derivation] in Hs. apply deriv_step_ok_rightmost in Hs; [|discriminate].
+    destruct Hs as (pre & A & post & rhs & Ex & Ey & Hr & Hp). exists pre, A, post, rhs.
+    split; [exact Ex|]. split; [exact Ey|]. split; [exact Hr|]. split; [discriminate | intros _; exact Hp].
+  - apply cfg_has_derivation_any in Hs. destruct Hs as (pre & A & post & rhs & Ex & Ey & Hr). exists pre, A, post, rhs.
+    split; [exact Ex|]. split; [exact Ey|]. split; [exact Hr|]. split; discriminate.
+Qed.
+
+Lemma step_chain_derives (G : cfg) (step : list sym -> list sym -> bool) :
+  (forall x y, step x y = true -> exists pre A post rhs, x = pre ++ Var A :: post /\ y = pre ++ rhs ++ post /\ has_rule G A rhs) ->
+  forall l x, chain_ok step (x :: l) = true -> derives G x (last (x :: l) x).
+Proof.
+  intros Hstep. induction l as [|y l IH]; intros x Hc.
+  - cbn [last]. constructor.
+  - rewrite chain_ok_cons in Hc. apply andb_true_iff in Hc. destruct Hc as [Hs Hc].
+    rewrite last_cons_cons, (last_default y l x y).
+    destruct (Hstep _ _ Hs) as (pre & A & post & rhs & -> & Ey & Hr).
+    eapply d_step; [exact Hr|]. rewrite <- Ey. apply IH. exact Hc.
+Qed.
+
+Lemma chain_ok_mono {X} (s1 s2 : X -> X -> bool) : (forall x y, s1 x y = true -> s2 x y = true) ->
+  forall l, chain_ok s1 l = true -> chain_ok s2 l = true.
+Proof.
+  intros Hm. induction l as [|x l IH]; [reflexivity|]. destruct l as [|y l]; [reflexivity|].
+  rewrite !chain_ok_cons, !andb_true_iff. intros [Hs Hc]. split; [apply Hm; exact Hs | apply IH; exact Hc].
+Qed.
+
+Lemma chain_ok_nth_all {X} (step : X -> X -> bool) (d : X) : forall l, chain_ok step l = true ->
+  forall i, S i < length l -> step (nth i l d) (nth (S i) l d) = true.
+Proof. intros l Hc i Hi. apply chain_ok_nth; assumption. Qed.
+
+Theorem check_cfg_derivation_sound (G : cfg) (mode : nat) (w : word) (steps : list (list sym)) :
+  check_cfg_derivation G mode w steps = true ->
+  hd_error steps = Some [Var (gS G)] /\ last steps [] = tword w /\
+  (forall x s, In x steps -> In s x -> sym_ok G s) /\
+  (forall i, S i < length steps ->
+     exists pre A post rhs, nth i steps [] = pre ++ Var A :: post /\ nth (S i) steps [] = pre ++ rhs ++ post /\
+       has_rule G A rhs /\ (mode = 0 -> all_terminals pre = true) /\ (mode = 1 -> all_terminals post = true)) /\
+  cfg_lang G w.
+Proof.
+  unfold check_cfg_derivation. destruct steps as [|x0 l]; [discriminate|]. intros Hok.
+  apply andb_true_iff in Hok. destruct Hok as [Hok El]. apply andb_true_iff in Hok. destruct Hok as [Hok Hc].
+  apply andb_true_iff in Hok. destruct Hok as [Hsym E0].
+  apply eqb_true in E0. apply eqb_true in El. subst x0.
+  split; [reflexivity|]. split; [rewrite (last_default [Var (gS G)] l [] [Var (gS G)]); exact El|].
+  split; [|split].
+  - intros x s Hx Hs. rewrite forallb_forall in Hsym. specialize (Hsym x Hx). rewrite forallb_forall in Hsym.
+    specialize (Hsym s Hs). unfold sym_ok. destruct (is_var s); apply mem_In; exact Hsym.
+  - intros i Hi. apply cfg_has_derivation_spec. apply chain_ok_nth; assumption.
+  - unfold cfg_lang. rewrite <- El. apply step_chain_derives with (step := cfg_has_derivation G mode); [|exact Hc].
+    intros x y Hs. destruct (cfg_has_derivation_spec _ _ _ _ Hs) as (pre & A & post & rhs & Ex & Ey & Hr & _).
+    exists pre, A, post, rhs. auto.
+Qed.
+
+(* ---- the library's own derivations (cfg_derive_word, checked by derivation_ok in C15) are accepted ---- *)
+Lemma deriv_step_ok_split (G : cfg) (mode : nat) (x y : list sym) : deriv_step_ok G mode x y = true ->
+  exists pre A post rhs, x = pre ++ Var A :: post /\ y = pre ++ rhs ++ post /\ has_rule G A rhs.
+Proof.
+  intros Hs. destruct (Nat.eq_dec mode 0) as [->|Hm].
+  - apply deriv_step_ok_leftmost in Hs. destruct Hs as (pre & A & post & rhs & Ex & Ey & Hr & _). exists pre, A, post, rhs. auto.
+  - apply (deriv_step_ok_rightmost G mode x y Hm) in Hs.
+    destruct Hs as (pre & A & post & rhs & Ex & Ey & Hr & _). exists pre, A, post, rhs. auto.
+Qed.
+
+Lemma deriv_chain_sym_ok (G : cfg) (mode : nat) : cfg_wf G -> forall l x, (forall s, In s x -> sym_ok G s) ->
+  chain_ok (deriv_step_ok G mode) (x :: l) = true -> forall y s, In y (x :: l) -> In s y -> sym_ok G s.
+Proof.
+  intros Hwf. induction l as [|z l IH]; intros x Hx Hc y s Hy Hs.
+  - destruct Hy as [<-|[]]. apply Hx; exact Hs.
+  - rewrite chain_ok_cons in Hc. apply andb_true_iff in Hc. destruct Hc as [Hst Hc].
+    destruct Hy as [<-|Hy]; [apply Hx; exact Hs|].
+    apply (IH z) with (y := y); [|exact Hc|exact Hy|exact Hs].
+    intros s' Hs'. destruct (deriv_step_ok_split _ _ _ _ Hst) as (pre & A & post & rhs & Ex & Ez & (r & Hr & Ev & Er)).
+    subst x z. rewrite !in_app_iff in Hs'. destruct Hs' as [Hs'|[Hs'|Hs']].
+    + apply Hx. rewrite in_app_iff. left; exact Hs'.
+    + destruct (Hwf r Hr) as [_ Hrhs]. subst rhs. apply Hrhs. exact Hs'.
+    + apply Hx. rewrite in_app_iff. right; right; exact Hs'.
+Qed.
+
+Lemma own_derivation_symbols (G : cfg) (mode : nat) (w : word) (steps : list (list sym)) :
+  cfg_wf G -> In (gS G) (gV G) -> derivation_ok G mode w steps = true ->
+  forallb (fun x => forallb (fun s => if is_var s then mem (sname s) (gV G) else mem (sname s) (gSg G)) x) steps = true.
+Proof.
+  intros Hwf HS Hok. unfold derivation_ok in Hok. destruct steps as [|x0 l]; [discriminate|].
+  apply andb_true_iff in Hok. destruct Hok as [Hok _]. apply andb_true_iff in Hok. destruct Hok as [E0 Hc].
+  apply eqb_true in E0. subst x0.
+  apply forallb_forall. intros y Hy. apply forallb_forall. intros s Hs.
+  assert (Hok : sym_ok G s).
+  { apply (@deriv_chain_sym_ok G mode Hwf l [Var (gS G)]) with (y := y); [|exact Hc|exact Hy|exact Hs].
+    intros s' [<-|[]]. exact HS. }
+  unfold sym_ok in Hok. destruct (is_var s); apply mem_In; exact Hok.
+Qed.
+
+(* leftmost derivations are accepted in mode 0, rightmost derivations in mode 1 *)
+Theorem own_derivation_accepted (G : cfg) (mode : nat) (w : word) (steps : list (list sym)) :
+  mode <= 1 -> cfg_wf G -> In (gS G) (gV G) -> derivation_ok G mode w steps = true ->
+  check_cfg_derivation G mode w steps = true.
+Proof.
+  intros Hm Hwf HS Hok. pose proof (@own_derivation_symbols G mode w steps Hwf HS Hok) as Hsym.
+  unfold check_cfg_derivation. unfold derivation_ok in Hok. destruct steps as [|x0 l]; [discriminate|].
+  rewrite Hsym. cbn [andb].
+  assert (E : cfg_has_derivation G mode = deriv_step_ok G mode) by (destruct mode as [|[|k]]; [reflexivity | reflexivity | lia]).
+  rewrite E. exact Hok.
+Qed.
+
+(* both kinds are accepted when any derivation is asked for (mode 2) *)
+Theorem own_derivation_accepted_any (G : cfg) (m k : nat) (w : word) (steps : list (list sym)) :
+  cfg_wf G -> In (gS G) (gV G) -> derivation_ok G m w steps = true ->
+  check_cfg_derivation G (S (S k)) w steps = true.
+Proof.
+  intros Hwf HS Hok. pose proof (@own_derivation_symbols G m w steps Hwf HS Hok) as Hsym.
+  unfold check_cfg_derivation. unfold derivation_ok in Hok. destruct steps as [|x0 l]; [discriminate|].
+  rewrite Hsym. cbn [andb].
+  apply andb_true_iff in Hok. destruct Hok as [Hok El]. apply andb_true_iff in Hok. destruct Hok as [E0 Hc].
+  rewrite E0, El. cbn [andb]. rewrite andb_true_r.
+  apply (chain_ok_mono (deriv_step_ok G m)); [|exact Hc].
+  intros x y Hs. apply cfg_has_derivation_any. apply (deriv_step_ok_split _ _ _ _ Hs).
+Qed.
